@@ -47,6 +47,7 @@ type FuncContract struct {
 	Decreases []Clause
 	Updates   []GhostUpdate
 	CallSites []CallSiteReq
+	Cuts      []CallSiteReq // cutat clauses
 	Inline    bool
 	Trusted   bool
 	NoInv     bool
@@ -167,7 +168,7 @@ func loadContracts(repo string) (*Contracts, error) {
 var clauseKeywords = map[string]bool{
 	"func": true, "type": true, "pred": true, "fun": true, "lemma": true,
 	"requires": true, "ensures": true, "modifies": true, "invariant": true, "decreases": true,
-	"update": true, "option": true, "ghost": true, "guarded": true, "frozen": true, "props": true, "callsite": true, "havoc": true, "callers": true, "cutafter": true, "pool": true, "yields": true, "crash_invariant": true,
+	"update": true, "option": true, "ghost": true, "guarded": true, "frozen": true, "props": true, "callsite": true, "havoc": true, "callers": true, "cutafter": true, "cutat": true, "pool": true, "yields": true, "crash_invariant": true,
 }
 
 func (C *Contracts) errorf(format string, a ...any) {
@@ -459,11 +460,11 @@ func (C *Contracts) parseFile(pkg, file, src string) {
 				gu.LHS, gu.RHS = le, re
 			}
 			curF.Updates = append(curF.Updates, gu)
-		case "requires", "ensures", "invariant", "decreases", "callsite", "crash_invariant":
+		case "requires", "ensures", "invariant", "decreases", "callsite", "cutat", "crash_invariant":
 			cl := Clause{Line: where}
 			body := rest
 			callee := ""
-			if kw == "callsite" {
+			if kw == "callsite" || kw == "cutat" {
 				f2 := strings.Fields(body)
 				callee = f2[0]
 				body = strings.TrimSpace(strings.TrimPrefix(body, callee))
@@ -513,6 +514,10 @@ func (C *Contracts) parseFile(pkg, file, src string) {
 				curF.Verify = true
 			case kw == "callsite":
 				curF.CallSites = append(curF.CallSites, CallSiteReq{Callee: qual(callee), Clause: cl})
+				curF.Verify = true
+			case kw == "cutat":
+				// proof cut: the clause is proved just before the call, then everything else known is forgotten
+				curF.Cuts = append(curF.Cuts, CallSiteReq{Callee: qual(callee), Clause: cl})
 				curF.Verify = true
 			case kw == "crash_invariant":
 				curF.CrashInvs = append(curF.CrashInvs, cl)
